@@ -34,9 +34,9 @@ CLAIMS = {
         note="category `other`: the stream half is a bounded stand-in. NOT decided: WriterSet::handle_write (assignment of sequences/versions, pending-index bookkeeping), `a rejected append changes nothing observable` at Worker::handle_append_events level (set_len path), next_partition_sequence, agreement of pending / open-index / closed-index lookups across reopen (read_stream_latest_version is a callee behind an assumed contract), the latest-version / latest-sequence queries."),
     "C03": dict(
         category="proof", design_ref="§6 U15",
-        technique="Verus contracts on SegmentIter::{new,is_finished,remaining_offsets,skip} extracted verbatim: forward scans visit offsets[idx..], reverse scans visit offsets[..=idx] backwards; replay through the real Database (scenario driver DB)",
+        technique="Verus contracts on SegmentIter::{new,is_finished,remaining_offsets,skip} extracted verbatim: forward scans visit offsets[idx..], reverse scans visit offsets[..=idx] backwards; Kani/CBMC complete harnesses on PartitionIterConfig / StreamIterConfig::try_get_from_reader_set (which sealed segment a scan starts in and at which index; units/U22); replay through the real Database (scenario driver DB)",
         text="Unbounded proof of the index arithmetic that positions a forward or reverse scan inside one segment's offset list: for every offset list, index and direction the iterator's remaining sequence is exactly the slice the property prescribes (reverse from the end when idx >= len); skip saturates; is_finished iff nothing remains.",
-        note="PARTIAL: only SegmentIter's synchronous positioning is under contract. NOT decided: BucketIter::next_batch / rollover hand-over between segments (async, closures into the reader pool), IterConfig::try_get_* index computation, the MPHF/bloom index lookups (external crates), the stream filter. Callers clamp the index (precondition). The database-level replay driver exercises those paths only as a counterexample search."),
+        note="PARTIAL: SegmentIter's synchronous positioning (Verus) and the sealed-segment selection (Kani, complete, closed indexes behind a lookup contract) are under contract. NOT decided: BucketIter::new_inner / next_batch / rollover hand-over between segments (async, closures into the reader pool), try_get_from_live_indexes (async lock), the MPHF/bloom index lookups (external crates), the stream filter. Callers clamp the index (precondition). The database-level replay driver exercises those paths only as a counterexample search."),
     "C04": dict(
         category="other", design_ref="§6 U13",
         technique="Kani/CBMC on SegmentBlock::read_committed_events and BucketSegmentReader::read_committed_events (polonius) extracted verbatim; read_record behind a contract over an abstract well-formed log",
@@ -59,9 +59,9 @@ CLAIMS = {
         note="PARTIAL: the seglog recovery scan (proved) and the sequence / version continuity lookups of the writer thread (bounded, index files as lookup tables under the assumed monotonicity invariant). The Reader is assumed to satisfy its contract (read_record returns the intact record at an offset or the documented stop kind; parse_record's gate is checked under C17). NOT decided: Open*Index::hydrate (indexes events whose commit record is missing: candidate, DESIGN §10), Worker::new, DatabaseBuilder::open, rollover index files (C06), partition-sequence / stream-version continuation after reopen at database level."),
     "C07": dict(
         category="other", design_ref="§7 U17",
-        technique="Kani/CBMC on SLICES (R5/R4) of ClusterActor::handle_partition_read_locally and handle_stream_read_locally lifted verbatim from the actor methods, against a model database iterator and a recording reply sink; AtomicWatermark::can_read complete harness (U09)",
-        text="Bounded stand-in (the model iterator yields <= 3 events in <= 2 batches; start / end / count / watermark full-range): for ANY gapless ascending event sequence in any batching, the ReadPartition and ReadStream handlers send exactly one reply whose events are gapless from the start, at most `count`, not beyond the requested end, and ALL strictly below the confirmed watermark loaded for the call. can_read(s) == (s < watermark) for all values.",
-        note="PARTIAL: slices with async erased (valid for per-call functional postconditions, not for interleavings); the database iterator is assumed to satisfy C03's contract. NOT decided: handle_local_read (EGET), GetPartitionSequence / GetStreamVersion handlers, forwarding between nodes, that the watermark equals the quorum-confirmed prefix (C08), has_more accuracy."),
+        technique="Kani/CBMC on SLICES (R5/R4) of the ClusterActor read handlers lifted verbatim: handle_partition_read_locally, handle_stream_read_locally, handle_local_read (whole body), the GetStreamVersion task and the GetPartitionSequence answer, against a model database iterator and a recording reply sink; PartitionConfirmationState::update_confirmation (the watermark is the longest quorum-confirmed prefix) and AtomicWatermark::can_read (units/U09)",
+        text="Bounded stand-in (the model iterator yields <= 3 events in <= 2 batches / transaction groups; start / end / count / watermark full-range): ReadPartition and ReadStream send exactly one reply whose events are gapless from the start, at most `count`, not beyond the requested end, and ALL strictly below the confirmed watermark; ReadEvent reveals an event only if it carries a quorum count AND lies below the watermark (complete); GetPartitionSequence answers watermark - 1 / none (complete); GetStreamVersion answers the highest version among the events below the watermark; update_confirmation keeps the watermark equal to the longest reported-quorum prefix (<= 2 pending versions). can_read(s) == (s < watermark) for all values.",
+        note="PARTIAL: slices with async erased (valid for per-call functional postconditions, not for interleavings); the database iterator is assumed to satisfy C03's contract (for the reverse scan: checked against a real single-node cluster by the replay driver U17). NOT decided: forwarding between nodes, has_more accuracy, the subscription path (C09)."),
     "C08": dict(
         category="other", design_ref="§7 U09",
         technique="Kani/CBMC on update_confirmation extracted verbatim (model BTreeMap): per-call contract over arbitrary state with the maximal-watermark invariant assumed before and proved after (inductive step); complete harness for the atomic cell",
@@ -84,9 +84,9 @@ CLAIMS = {
         note="Assumed: vstd HashMap/HashSet specs; ArrayVec shim; rf <= 12 (ArrayVec capacity; not enforced by config validation); the filter/collect tail of calculate_assigned_partitions (std, no Verus spec: the proved fact is the bucket set before the tail). get_available_replicas is bounded (<= 2 replicas quick, <= 3 thorough; std sort_by trusted to be a stable sort). NOT decided: recalculate_partition_assignments over real HashMap iteration order, libp2p event delivery. Kani is infeasible here (64-bit symbolic modulo; measured > 20 min)."),
     "C22": dict(
         category="other", design_ref="§7 U18",
-        technique="Kani/CBMC on a SLICE (R5/R4) of the EMAPPEND request handler (per-event stream-version reconstruction) lifted verbatim, against array models of the map and lists",
-        text="Bounded stand-in (<= 3 events over <= 2 streams, versions full-range): for any append result consistent with the number of events per stream, the EMAPPEND response has one entry per event in request order and the i-th event of a stream reports last - (k - 1 - i) — the per-event stream versions the reference model prescribes — without panicking (including a new stream whose first event has version 0).",
-        note="VERY PARTIAL: one response-construction slice of one command. NOT decided: EAPPEND timestamp conversion, encode_event numeric casts, EGET / ESCAN / EPSCAN / ESVER / EPSEQ / subscription commands against the reference model, has_more flags, error replies instead of crashed connections (the request loop Conn::run), the model-equivalence of whole command histories."),
+        technique="Kani/CBMC on SLICES (R5/R4) of the EMAPPEND and EAPPEND request handlers lifted verbatim (units/U18, U21), on encode_event / the EAPPEND response frame and on PartitionSelector / PartitionRange (EPSCAN / EPSEQ / EPSUB partition selection) extracted verbatim, against recorder models of the cluster and of RESP frames; the cluster read handlers the RESP reads call are under contract in units/U17",
+        text="Bounded stand-in with complete parts. EMAPPEND (<= 3 events over <= 2 streams, versions full-range): one response entry per event in request order, the i-th event of a stream reports last - (k - 1 - i), no panic. EAPPEND (COMPLETE: every request, every u64 millisecond timestamp, any partition count, any append result): never panics; a millisecond timestamp that does not fit nanoseconds is an error and nothing is appended; otherwise exactly one single-event transaction with timestamp ms * 1_000_000, partition = hash(partition key) % partitions, and the response reports the append result's sequence / version and what was appended. encode_event and the EAPPEND frame report every field under its own key, numerically unchanged, timestamps in milliseconds (bounded: timestamp = 8 boundary bases + 16 symbolic bits). A numeric partition id is used UNCHANGED (COMPLETE); partition ranges expand to exactly the ids they denote (<= 4 partitions).",
+        note="PARTIAL: response / request construction of EAPPEND and EMAPPEND, the event frame, the partition selection of EPSCAN / EPSEQ / EPSUB. NOT decided: the argument parsers (combine closures, C21), EGET / ESCAN / EPSCAN handlers' has_more flags and range handling beyond the cluster read handlers of units/U17 (C07), subscription commands, error replies instead of crashed connections in the request loop Conn::run, the model-equivalence of whole command histories."),
     "C23": dict(
         category="proof", design_ref="§4 C23 / U05",
         technique="Kani/CBMC complete harnesses (loop-free, full-domain symbolic ids/hashes/clock/RNG) on id.rs extracted verbatim; Verus contracts on the two bucket helpers; bounded Kani harness for Transaction::new",
